@@ -13,7 +13,7 @@ PROP = dict(
                "sys/me/fnd clauses of the property are outside the model.",
     technique="Lean 4 proof (case analysis of the transcribed handler, BitVec bit lemmas) + differential correspondence of the world model "
               "+ history monitor on the implementation's output",
-    modules=["TinodeVerif.Props.C03", "TinodeVerif.Props.C02c", "TinodeVerif.Props.C03s"],
+    modules=["TinodeVerif.Props.C03", "TinodeVerif.Props.C02c", "TinodeVerif.Props.C03s", "TinodeVerif.Props.C03y"],
     theorems=[T + n for n in ["writer_both", "pub_refused_no_effect", "pub_allowed_accepted"]] + ["Tinode.Props.C03.sys_pub_needs_nothing", "Tinode.Props.C03.sys_pub_refusals"] + ["Tinode.Props.C02.reader_cannot_publish", T + "suspended_owner_topics_readonly", T + "suspension_leaves_others"],
     streams=[world.world_stream("C03")],
     seeds=dict(quick=1, thorough=4),
